@@ -1308,6 +1308,9 @@ func genC17(c *Ctx) {
 			case 1: // mkdir
 				dir := []string{"", "d1", "d2", "d3", "d4"}[r.Intn(5)]
 				name := fmt.Sprintf("m%d", r.Intn(3))
+				if r.Intn(3) == 0 { // a name that is taken: by a directory, by a file
+					dir, name = "", []string{"d1", "d2", "a", "b"}[r.Intn(4)]
+				}
 				dperm := uint32([]int{0o755, 0o777, 0o750, 0o700}[r.Intn(4)])
 				what = fmt.Sprintf("mkdir %s/%s perm %o", dir, name, dperm)
 				if reached = exists(filepath.Join(e.root, dir)); reached {
